@@ -371,6 +371,65 @@ pub fn run(args: &Args) -> Report {
             }
         }
     }
+    // deterministic membership grid: lists of 1..6 ids / authors / kinds; the event's field is each listed element
+    // (first, last, only), an unlisted value, a value sharing a 31-byte prefix / suffix with a listed one, and every
+    // 32-byte run that straddles two neighbouring list elements (what an unaligned scan over the packed list would
+    // see); for kinds the 2-byte runs straddling neighbours and the byte-swapped values
+    {
+        let base = gen_event(&mut rng);
+        for len in 1..=6usize {
+            let list: Vec<[u8; 32]> = (0..len).map(|i| { let mut a = [0u8; 32]; for (j, b) in a.iter_mut().enumerate() { *b = (0x10 * (i as u8 + 1)).wrapping_add(j as u8 / 8); } a }).collect();
+            let mut probes: Vec<[u8; 32]> = list.clone();
+            probes.push([0xEE; 32]);
+            for a in list.iter() {
+                let mut p = *a;
+                p[31] ^= 1;
+                probes.push(p);
+                let mut p = *a;
+                p[0] ^= 0x80;
+                probes.push(p);
+            }
+            let packed: Vec<u8> = list.iter().flat_map(|a| a.iter().cloned()).collect();
+            for off in 0..packed.len().saturating_sub(31) {
+                if off % 32 != 0 {
+                    let mut p = [0u8; 32];
+                    p.copy_from_slice(&packed[off..off + 32]);
+                    probes.push(p);
+                }
+            }
+            for p in probes.iter() {
+                let mut ev = base.clone();
+                ev.pubkey = *p;
+                check_pair(&mut rep, &SemFilter { authors: list.clone(), ..SemFilter::empty() }, &ev, false, &mut rng);
+                let mut ev = base.clone();
+                ev.id = *p;
+                check_pair(&mut rep, &SemFilter { ids: list.clone(), ..SemFilter::empty() }, &ev, false, &mut rng);
+                rep.count("membership_grid_cases");
+            }
+            let kinds: Vec<u16> = (0..len).map(|i| 0x1122u16.wrapping_add(0x2211 * i as u16)).collect();
+            let mut kprobes: Vec<u16> = kinds.clone();
+            kprobes.push(0xEEEE);
+            for k in kinds.iter() {
+                kprobes.push(k.swap_bytes());
+                kprobes.push(k ^ 1);
+                kprobes.push(k ^ 0x8000);
+            }
+            for w in kinds.windows(2) {
+                for (a, b) in [(w[0], w[1])] {
+                    kprobes.push((a << 8) | (b >> 8));
+                    kprobes.push((a >> 8) | (b << 8));
+                    kprobes.push(((a & 0xff) << 8) | (b & 0xff));
+                    kprobes.push((a & 0xff00) | (b >> 8));
+                }
+            }
+            for k in kprobes {
+                let mut ev = base.clone();
+                ev.kind = k;
+                check_pair(&mut rep, &SemFilter { kinds: kinds.clone(), ..SemFilter::empty() }, &ev, false, &mut rng);
+                rep.count("membership_grid_cases");
+            }
+        }
+    }
     for k in 0..n {
         let e = gen_event(&mut rng);
         let f = gen_filter_for(&mut rng, &e);
